@@ -6,6 +6,7 @@
 # against Meaning.Verdicts computed from the generator's tree.
 import json, random, re, time
 import core, corpus, gen, plant, cli
+from gen import L, R, C
 
 MESSAGES = [
     ("Parse error", "parse"), ("Invalid command name", "invalid_name"), ("Varying command names", "varying_names"),
@@ -52,6 +53,35 @@ def tricky_clean():
         ([("seq", [L("a", "one"), L("x")]), ("seq", [L("a", "one"), L("y")])], []),
         ([("alt", [("seq", [L("same", "d"), L("x")]), ("seq", [L("other", "e"), L("same", "f")])])], []),
     ]
+    # definitions shared under a common ancestor (diamond, triangle, longer joins): acyclic, must be accepted
+    A, B, Cn, D, E = R("A"), R("B"), R("C"), R("D"), R("E")
+    out += [
+        ([A], [("A", "", ("alt", [B, Cn])), ("B", "", ("seq", [L("x"), D])), ("C", "", ("seq", [L("y"), D])), ("D", "", L("d"))]),
+        ([A], [("A", "", ("seq", [B, Cn])), ("B", "", ("seq", [L("b"), Cn])), ("C", "", L("c"))]),
+        ([("seq", [A, L("t")])], [("A", "", ("alt", [B, Cn])), ("B", "", ("seq", [L("x"), D])), ("C", "", ("seq", [L("y"), D])), ("D", "", ("seq", [L("d"), E])),
+                                  ("E", "", ("alt", [L("e1"), L("e2")]))]),
+        ([("alt", [A, B])], [("A", "", ("seq", [L("a"), Cn])), ("B", "", ("seq", [L("b"), Cn])), ("C", "", ("opt", D)), ("D", "", L("d"))]),
+        ([A], [("A", "", ("seq", [("sub", [L("--in="), B]), ("sub", [L("--out="), B])])), ("B", "", ("alt", [L("json"), L("yaml")]))]),
+    ]
+    return out
+
+
+def dag_grammars(rnd, n):
+    """random acyclic definition graphs with shared descendants"""
+    out = []
+    for _ in range(n):
+        k = rnd.randint(3, 6)
+        names = ["G%d" % i for i in range(k)]
+        defs = []
+        for i, nm in enumerate(names):
+            later = names[i + 1:]
+            refs = rnd.sample(later, min(len(later), rnd.randint(1, 2))) if later else []
+            items = [L("%s%d" % (nm.lower(), j)) for j in range(rnd.randint(1, 2))] + [R(x) for x in refs]
+            rnd.shuffle(items)
+            body = items[0] if len(items) == 1 else (rnd.choice(["seq", "alt"]), items)
+            defs.append((nm, "", body))
+        rnd.shuffle(defs)
+        out.append(([("seq", [R(names[0]), L("end")])], defs))
     return out
 
 
@@ -59,7 +89,7 @@ def build_corpus(tier, seed):
     rnd = random.Random(seed)
     nbase = 60 if tier == "quick" else 700
     cases = []
-    for variants, defs in tricky_clean():
+    for variants, defs in tricky_clean() + dag_grammars(rnd, 15 if tier == "quick" else 200):
         for sh in gen.SHELLS:
             c = gen.case(variants, defs, shell=sh)
             corpus.finish(c, len(cases) + 1, origin="tricky_clean", planted="", site={}, planted_for="", base=0,
